@@ -183,6 +183,11 @@ def write_evidence(ctx, mod, wall, nviol, extra=None):
         'stats': ctx.stats,
         'notes': ctx.notes,
         'call_resolution': ctx.res.stats,
+        'normalisation': ctx.prog.normalisation or {},
+        'value_terms': {'functions_evaluated': len(getattr(ctx, '_svals', {})),
+                        'calls_recorded': sum(len(v.calls) for v in getattr(ctx, '_svals', {}).values()),
+                        'stores_recorded': sum(len(v.stores) for v in getattr(ctx, '_svals', {}).values())},
+        'undecided': ctx.undecided,
         'exhaustive': True,
     }
     if extra:
